@@ -18,6 +18,7 @@ from .lib import _tail_values
 
 EXPLANATION = "Who-may-reset the graph and guard dominance of the restart path (T3/T5), provenance of the roots / imports that Builder::build loads (T4), ordering of evict-then-load in Builder::reload (T2)."
 NOT_DECIDED = "convergence over arbitrary histories of builds and edits"
+CONFIGS = ["default", "nofastcheck"]  # thorough tier also analyses the build without fast_check / symbols
 ASSUMPTIONS = []
 
 
@@ -114,6 +115,11 @@ def run(F, R, tier):
                         split_cond(clo["body"]["value"], True, conds)
                         ok = any(x.kind == "cond" and not x.pol and x.node.get("name") == "contains_key" and peel(x.node["recv"]).get("field") == "imports" for x in conds)
     R.ob("C19-b", "only configured imports the graph does not have yet are processed", ok, "imports are not filtered by !graph.imports.contains_key(referrer)", bd["file"])
+    for nm in ("Builder::handle_provided_imports", "Builder::resolve_pending"):
+        bad, _ = must_pass(F, bd["body"]["value"], lambda n, nm=nm: callee_matches(n, [nm]))
+        R.ob("C19-b", "every build passes %s (also when no new root was given)" % nm.split("::")[-1], not bad,
+             "a path returns from Builder::build before %s: a later build that adds only configured imports (or nothing) would skip them" % nm.split("::")[-1], where(bad[0][1]) if bad else "")
+
     # ---------------- C19-c ------------------------------------------------
     rl = F.body("graph::Builder::reload")
     fors = [n for n in rl["_nodes"] if n["k"] == "For" and any(callee_matches(x, ["Builder::load"]) for x in walk(n["body"]))]
@@ -141,5 +147,9 @@ def run(F, R, tier):
                 if d[0] == "let" and any(callee_matches(x, ["ModuleGraph::resolve"]) for x in walk(d[1])):
                     ok = True
         R.ob("C19-c", "reload targets the redirect-resolved specifiers", ok, "reload no longer resolves redirects of the requested specifiers", rl["file"])
+    for l in [s_ for s_ in rl["_nodes"] if s_.get("k") == "Struct" and s_.get("adt") == "graph::LoadOptionsRef"]:
+        f = {x["name"]: peel(x["e"]) for x in l["fields"]}
+        R.ob("C19-c", "a reloaded specifier is loaded like a root (no referrer, is_root)", f["is_root"].get("v") is True and ctor_of(f["maybe_range"]) == "std::option::Option::None" and ctor_of(f["maybe_attribute_type"]) == "std::option::Option::None",
+             "reload loads with is_root = %s: without referrer and attribute only a root is accepted for attribute-dependent media types (a reloaded JSON dependency would become an error entry)" % expr_text(f["is_root"]), where(l))
     aw = [n for n in rl["_nodes"] if callee_matches(n, ["Builder::resolve_pending"])]
     R.ob("C19-c", "reload drains the loads it queued", len(aw) == 1, "reload does not await resolve_pending", rl["file"])
